@@ -41,7 +41,7 @@ var errConsumer = errors.New("consumer failed")
 // the final walk / never" are all one query because time.Now() is a fresh non-decreasing symbol
 // at every call).
 //
-//zx:harness prop=C13 id=C13.G tier=quick symclock=1 shard=pipeline:7 K=3
+//zx:harness prop=C13 id=C13.G tier=quick symclock=1 shard=pipeline:7 K=3 thorough.K=4 thorough.shard=pipeline:7,rows:5
 func zxC13Operators() {
 	K := vrtParam("K", 3)
 	k := vrtShape("rows", K+1)
@@ -110,7 +110,7 @@ func zxC13Operators() {
 // input keys onto the group-by, rows with equal projections are merged into one, and every input
 // row contributes to exactly one output row (GROUP BY nothing: wildcard keeps every distinct key).
 //
-//zx:harness prop=C06 id=C06.G tier=quick shard=by:3 R=3
+//zx:harness prop=C06 id=C06.G tier=quick shard=by:3 R=3 thorough.R=4 thorough.shard=by:3,hasD1_0:2,hasD2_0:2
 func zxC06Group() {
 	R := vrtParam("R", 3)
 	until := time.Unix(1500000000, 0)
@@ -214,7 +214,7 @@ func zxC06Group() {
 // stored periods inside (asOf, until], each with the value the unbounded pipeline reports for the
 // same timestamp; the sequence's absolute time is symbolic (any instant on the second grid).
 //
-//zx:harness prop=C07 id=C07.F tier=quick N=4
+//zx:harness prop=C07 id=C07.F tier=quick N=4 thorough.N=6
 func zxC07Flatten() {
 	N := vrtParam("N", 4)
 	res := time.Second
